@@ -72,7 +72,9 @@ SET = {"default": {}, "errstring": {"errMarshal": "string"}, "rfc3339": {}, "uni
        "unixnano": {"timeFormat": "UNIXNANO"}, "rfc3339nano": {"timeFormat": "2006-01-02T15:04:05.999999999Z07:00"},
        "ms-float": {}, "ms-int": {"durInt": True}, "s-float": {"durUnit": 10**9}, "s-int": {"durUnit": 10**9, "durInt": True}, "ns-int": {"durUnit": 1, "durInt": True}, "us-float": {"durUnit": 1000}}
 TIMES = {"epoch": [0], "neg": [-1000000000, -86400 * 10**9 * 365], "negsub": [-1, -1499500, -999999, -1000001, -86400 * 10**9 - 123456789], "subsec": [981173106123456789, 1700000000000000001], "subms": [1700000000123000000], "far": [4102444800000000000, 253402300799000000000 // 100]}
-DURS = {"zero": [0], "ns": [1, 999], "neg": [-1, -2500000000], "ms": [1000000, 1500000], "hour": [3600 * 10**9], "big": [2**62, -(2**62)]}
+DURS = {"zero": [0], "ns": [1, 999], "neg": [-1, -2500000000], "ms": [1000000, 1500000], "hour": [3600 * 10**9],
+        # beyond 2^53 ns (104 days) float64(d) is no longer exact: the rendering is float64(d)/float64(unit), rounded once
+        "big": [2**62, -(2**62), 2**53 + 1, 9524858201384969, -9524858201384969, 2**63 - 1, -(2**63) + 1, 2**60 + 12345, 10**18 + 7, 31556952 * 10**9 * 3 + 1]}
 
 
 def concretise(case, rng):
@@ -186,6 +188,26 @@ def check(pid, tier, seed, replay=None):
                 c = concretise(a, rng)[0]
                 lo, hi = INTS[t]
                 val = str(rng.randint(lo, hi))
+                c["tv"] = dict(c["tv"], i=val)
+                c["slice"] = dict(c["slice"], **{"is": [val]})
+                c["class"] = "random"
+                cases.append(c)
+            # random durations of every magnitude under every duration setting, random instants under every time setting
+            for i in range(6000 if thorough else 1200):
+                st = rng.choice(["ms-float", "ms-int", "s-float", "s-int", "ns-int", "us-float"])
+                a = next(x for x in abstract if x["type"] == "Dur" and x["class"] == "zero" and x["setting"] == st)
+                c = concretise(a, rng)[0]
+                mag = rng.randrange(0, 64)
+                val = str(rng.choice([-1, 1]) * rng.randrange(1 << max(0, mag - 1), 1 << mag) if mag else 0)
+                c["tv"] = dict(c["tv"], i=val)
+                c["slice"] = dict(c["slice"], **{"is": [val]})
+                c["class"] = "random"
+                cases.append(c)
+            for i in range(3000 if thorough else 600):
+                st = rng.choice(["rfc3339", "unix", "unixms", "unixmicro", "unixnano", "rfc3339nano"])
+                a = next(x for x in abstract if x["type"] == "Time" and x["class"] == "epoch" and x["setting"] == st)
+                c = concretise(a, rng)[0]
+                val = str(rng.randrange(-(2**62), 2**62))
                 c["tv"] = dict(c["tv"], i=val)
                 c["slice"] = dict(c["slice"], **{"is": [val]})
                 c["class"] = "random"
